@@ -6,19 +6,19 @@ from hypothesis import strategies as st
 from .. import models as M
 from .. import projspace as PS
 from .. import rulespace as RS
-from ..drive import Project, eval_rule, scan_outcome
+from ..drive import Project, build_rule, eval_rule, outcome, scan_outcome
 
 ID = "C09"
 MOD = __name__
 
 RULE_TEXT = (
     "Hypothesis project trees (depth <= 5) with absolute imports (and, in a third of the cases, imports of nested "
-    "external packages with externals included) x level_limit k in 1..depth x module_path = root or a sub-directory, plus "
+    "external packages with externals included) x level_limit k in 0..depth+1 x imports written as 'import <name>' or as relative from-imports x module_path = root or a sub-directory, plus "
     "an exhaustive family: a fixed 3-level project x every k in 1..4 x every module_path x externals in/excluded. Oracle: "
     "scan(level_limit=k) must equal the quotient of scan(level_limit=None) under truncation of every module name to k "
     "levels below module_path (modules = truncated names, a->b iff some pre-image import and a != b); then rules drawn "
     "from C01's space over names at/above level k ('sub modules of' parents strictly above) are evaluated on both "
-    "architectures and must give the same verdict. Non-trivial: truncation merges >= 2 modules and >= 1 import has an "
+    "architectures and must give the same verdict, also when one rule object is applied to the full and then to the flattened architecture. Non-trivial: truncation merges >= 2 modules and >= 1 import has an "
     "endpoint that is truncated."
 )
 ASSUMPTIONS = [
@@ -28,7 +28,7 @@ ASSUMPTIONS = [
 
 def check_case(spec: dict) -> dict:
     root = spec["root"]
-    files = PS.render_files(spec)
+    files = PS.render_files_relative(spec) if spec.get("relative") else PS.render_files(spec)
     sub_rel = spec.get("module_path", "")
     sub = PS.dotted(root, sub_rel)
     k = spec["k"]
@@ -68,7 +68,14 @@ def check_case(spec: dict) -> dict:
                 b = eval_rule(rule, lim[2])
                 if a[0] != b[0]:
                     v(f"verdict-not-preserved/{RS.shape_name(rule)}", f"k={k} module_path={sub} rule={rule}: full -> {a}, flattened -> {b}")
-    labels = [f"k={k}", "sub-path" if sub_rel else "root-path", "externals" if ext else "internal-only",
+                # one rule object applied to the full and then to the flattened architecture
+                ro = build_rule(rule)
+                outcome(lambda: ro.assert_applies(full[2]))
+                c = outcome(lambda: ro.assert_applies(lim[2]))
+                if (c[0], c[1] if c[0] == "fail" else None) != (b[0], b[1] if b[0] == "fail" else None):
+                    v(f"reused-rule-object-differs/{RS.shape_name(rule)}", f"k={k} rule={rule}: a rule object applied to the full architecture "
+                      f"first gives {c} on the flattened one, a fresh object gives {b}")
+    labels = [f"k={k}"] + (["relative-imports"] if spec.get("relative") else []) + ["sub-path" if sub_rel else "root-path", "externals" if ext else "internal-only",
               "merging" if merged else "no-merge", f"rules={n_rules}"]
     return {"violations": viols, "nontrivial": merged and crossing, "labels": labels}
 
@@ -86,8 +93,9 @@ def cases(draw):
     sub = PS.dotted(tree["root"], tree["module_path"])
     mods = {m for m in PS.tree_modules(tree) if M.is_self_or_desc(m, sub)}
     depth = max(len(m.split(".")) for m in mods) - len(sub.split("."))
-    tree["k"] = draw(st.integers(1, max(1, depth)))
+    tree["k"] = draw(st.integers(0, max(1, depth) + 1))
     tree["include_external"] = ext
+    tree["relative"] = draw(st.integers(0, 2)) == 0
     keep = len(sub.split(".")) + tree["k"]
     flat = sorted({M.truncate(m, keep) for m in mods})
     rules = []
@@ -122,8 +130,8 @@ def exh_shard(arg, stt, deadline) -> None:
     k, = arg
     flat_rules = []
     for mp in ("", "a", "a/x", "b"):
-        for ext in (False, True):
-            spec = dict(FIXED, module_path=mp, k=k, include_external=ext)
+        for ext, rel in ((False, False), (True, False), (False, True)):
+            spec = dict(FIXED, module_path=mp, k=k, include_external=ext, relative=rel)
             sub = PS.dotted("proj", mp)
             keep = len(sub.split(".")) + k
             mods = {m for m in PS.tree_modules(spec) if M.is_self_or_desc(m, sub)}
@@ -141,6 +149,6 @@ def exh_shard(arg, stt, deadline) -> None:
 
 
 def run(ctx) -> None:
-    ctx.exhaustive("fixed-project-all-limits", MOD, "exh_shard", [(k,) for k in (1, 2, 3, 4)],
-                   "fixed 3-level project x k in 1..4 x module_path in {root, a, a/x, b} x externals in/excluded x up to 400 single-subject/object rules each")
-    ctx.random("random-trees", MOD, "strategy", "check_case", 1500 if ctx.tier == "quick" else 40000)
+    ctx.exhaustive("fixed-project-all-limits", MOD, "exh_shard", [(k,) for k in (0, 1, 2, 3, 4, 5)],
+                   "fixed 3-level project x k in 0..5 x module_path in {root, a, a/x, b} x (externals in/excluded, relative from-imports) x up to 400 single-subject/object rules each")
+    ctx.random("random-trees", MOD, "strategy", "check_case", 4000 if ctx.tier == "quick" else 40000)
